@@ -145,6 +145,26 @@ fn main() {
     run_mix(&mut ctx, seed, |c, e| exec_dispatch(c, e));
     // and concurrently: the same sample on several threads at once (shared state inside the library)
     run_mix_concurrent(&mut ctx, seed, cli.threads, |c, e| exec_dispatch(c, e));
+    // storms: one constructor at one multi-word size called from 8 threads at once with arguments from a small
+    // set, so that threads ask for the same and for neighbouring functions at the same time (state shared between
+    // threads and keyed on part of the arguments)
+    {
+        let mut rng = Rng::new(seed ^ 0x5707);
+        let budget = std::time::Duration::from_millis(if thorough { 4000 } else { 400 });
+        let mut total = 0u64;
+        for (n, ty) in shards.iter().filter(|(n, _)| *n >= 7) {
+            for op in ["threshold", "equals", "symmetric"] {
+                let mut evs: Vec<Ev> = Vec::new();
+                let masks: Vec<u64> = (0..6).map(|_| rng.next_u64()).collect();
+                for r in 0..60usize {
+                    let arg: u64 = if op == "symmetric" { masks[r % masks.len()] ^ ((r as u64 % 2) << *n) } else { (r % (n + 2)) as u64 };
+                    evs.push(Ev::new(op, ty, *n).int64(arg));
+                }
+                total += run_events_concurrently(&mut ctx, seed ^ (*n as u64) << 8, cli.threads, &evs, budget, |c, e| exec_dispatch(c, e));
+            }
+        }
+        ctx.bump("storm:constructor-calls", total);
+    }
     let mut required = Vec::new();
     for (n, ty) in &shards {
         for op in ["zero", "one", "parity", "majority", "threshold", "equals", "symmetric"] {
